@@ -10,18 +10,18 @@ import (
 
 	"verifharness/common"
 	_ "verifharness/engines/beaconstore"
-	_ "verifharness/engines/intake"
+	_ "verifharness/engines/framing"
 	_ "verifharness/engines/headerproof"
 	_ "verifharness/engines/history"
+	_ "verifharness/engines/intake"
 	_ "verifharness/engines/lightclient"
 	_ "verifharness/engines/lookup"
 	_ "verifharness/engines/net"
-	_ "verifharness/engines/stateproof"
-	_ "verifharness/engines/framing"
 	_ "verifharness/engines/ssz"
-	_ "verifharness/engines/wire"
+	_ "verifharness/engines/stateproof"
 	_ "verifharness/engines/store"
 	_ "verifharness/engines/table"
+	_ "verifharness/engines/wire"
 )
 
 func main() {
